@@ -689,6 +689,8 @@ def check_c11(tier, seed):
                      "--worker", str(w), "--workers", str(W)], f"r{w}")
         batch.spawn(["c11", "--mode", "enum-faults", "--seed", str(seed), "--salt", str(salt), "--runs", str(plan["enum_files"]),
                      "--worker", str(w), "--workers", str(W)], f"e{w}")
+        batch.spawn(["c11", "--mode", "enum-dups", "--seed", str(seed), "--runs", "1000" if tier == "thorough" else "10",
+                     "--worker", str(w), "--workers", str(W)], f"d{w}")
         batch.spawn(["c11", "--mode", "exhaustive", "--alphabet", "ascii7", "--len", str(plan["exh_len"]),
                      "--worker", str(w), "--workers", str(W)], f"x{w}")
         batch.spawn(["c11", "--mode", "exhaustive", "--alphabet", "wide", "--len", str(plan["wide_len"]),
@@ -700,7 +702,7 @@ def check_c11(tier, seed):
         os.makedirs(REPLAYS, exist_ok=True)
         json.dump({"property": "C11", "class": "hang", "violations": [{"class": "hang", "key": "", "phase": "c11", "detail": f"worker exceeded {plan['budget']}s; args {args}"}]}, open(p, "w"), indent=1)
         log(f"VIOLATION property=C11 replay={p}")
-    agg = dict(runs=0, executions=0, parsed_ok=0, parse_err=0, ops=0, lookups_checked=0, enumerated_fault_points=0, exhaustive_strings=0)
+    agg = dict(runs=0, executions=0, parsed_ok=0, parse_err=0, ops=0, lookups_checked=0, enumerated_fault_points=0, enumerated_dup_positions=0, exhaustive_strings=0)
     fired, err_kinds = {}, {}
     nt_files = []
     samples = []
@@ -732,9 +734,11 @@ def check_c11(tier, seed):
             "strings_over_wide_alphabet_up_to_len": plan["wide_len"],
             "strings_enumerated": agg["exhaustive_strings"],
             "sink_fault_points_enumerated": agg["enumerated_fault_points"],
+            "duplicate_positions_enumerated": agg["enumerated_dup_positions"],
+            "duplicate_positions_note": "files of 3..129 (quick) / 3..1030 (thorough) names or categories in four layouts; for every position p the p-th one repeats a random earlier one and the parse must reject the file",
             "note": "the write-fault enumeration is exhaustive per file (every write call x {WouldBlock, Ok(0), StorageFull, EINTR} and every split point); the set of files is sampled",
         },
-        "random_runs": agg["runs"] - agg["exhaustive_strings"],
+        "random_runs": agg["runs"] - agg["exhaustive_strings"] - agg["enumerated_dup_positions"],
         "parsed_ok": agg["parsed_ok"],
         "parse_errors": agg["parse_err"],
         "parse_error_kinds": err_kinds,
